@@ -39,6 +39,8 @@ CONSTANTS Maps,        \* subset of {"file", "memfd"}
           Strict,      \* TRUE: no exemption for the known one-sided-success classes
           RefuseMemfdDowngrade  \* FALSE: the tree as it is (a memfd client answered "version 2" goes on with protocol 2);
                                 \* TRUE: the proposed repair (it fails instead), see checks/handshake_NOTES.md
+CONSTANT BufferFdLeaks          \* TRUE: the tree as it is (getGlobalBufferManagerWithMemFd does not close the received buffer
+                                \* descriptor when the mapping fails); FALSE: repaired
 CONSTANT TimeoutStopsGoroutine  \* FALSE: the tree as it is (initProtocol's goroutine outlives the time-out arm);
                                 \* TRUE: the proposed repair (shutdown of connFd + wait for the goroutine)
 
@@ -53,7 +55,12 @@ Scenarios ==
   { c \in [map: Maps, cproto: CProtos, sgen: SGens, tr: Transports,
            fside: {"none", "c", "s"}, fstep: 0..MaxStep, fkind: FKinds] :
       /\ ~(c.map = "memfd" /\ c.cproto = 2)
-      /\ (c.fside = "none" => c.fstep = 0 /\ c.fkind = "stall") }
+      /\ (c.fside = "none" => c.fstep = 0 /\ c.fkind = "stall")
+      \* kinds "nobuf"/"badbuf": the client does not stop, but the buffer it announces cannot be mapped by the server
+      \* (nobuf: the buffer file is already removed - the library's client removes the buffer file before the queue file
+      \* when it tears down or dies right after sending the paths; badbuf: it holds no valid buffer manager)
+      /\ (c.fkind \in {"nobuf", "badbuf"} => c.fside = "c" /\ c.fstep = 0)
+      /\ ~(c.fkind = "nobuf" /\ c.map = "memfd") }
 
 Msg(t, v) == [t |-> t, v |-> v, whole |-> TRUE]
 HeaderTypes == {"EXCH", "PATH", "MEMFD", "ACKRDY", "ACK"}
@@ -68,7 +75,8 @@ MinVer == Min(cfg.cproto, SMax)
 
 IsHalf  == cfg.fkind \in {"halfstall", "halfclose"}
 IsClose == cfg.fkind \in {"close", "halfclose"}
-FaultNow(x) == cfg.fside = x /\ io[x] = cfg.fstep /\ cfg.fkind # "late"
+FaultNow(x) == cfg.fside = x /\ io[x] = cfg.fstep /\ cfg.fkind \notin {"late", "nobuf", "badbuf"}
+BadBuffer == cfg.fside = "c" /\ cfg.fkind \in {"nobuf", "badbuf"}
 \* kind "late": the faulty side pauses before its k-th IO operation until the other end has given up, then goes on
 Paused(x) == cfg.fside = x /\ io[x] = cfg.fstep /\ cfg.fkind = "late" /\ res[IF x = "c" THEN "s" ELSE "c"] = "run"
 \* the code of initProtocol runs on its own goroutine; the time-out arm does not stop it (zombie)
@@ -238,7 +246,12 @@ SStart ==
 
 \* mappingQueueManager + getGlobalBufferManager by path: needs file-backed client memory
 MapByPath(q, v) ==
-    IF cfg.map = "file"
+    IF cfg.map = "file" /\ BadBuffer
+      THEN /\ led' = [led EXCEPT !["s"] = @ \cup {"qmap"}]      \* mappingQueueManager succeeded, s.queueManager = qm
+           /\ ver' = [ver EXCEPT !["s"] = v]
+           /\ Goto("s", "mapBuffer") /\ Consume("s")
+           /\ UNCHANGED <<cfg, zombie, res, open, mem, wire>>
+    ELSE IF cfg.map = "file"
       THEN /\ led' = [led EXCEPT !["s"] = @ \cup ByPathRes]
            /\ mem' = [mem EXCEPT !["s"] = "C"]
            /\ ver' = [ver EXCEPT !["s"] = v]
@@ -273,15 +286,32 @@ SRecvSecond ==
 SSendAckRdy == SendStep("s", "sendAckRdy", Msg("ACKRDY", ver["s"]), "recvFds")
 SRecvFds ==
     /\ Take("s", "recvFds")
-    /\ IF Front("s").t = "FDS"
+    /\ IF Front("s").t = "FDS" /\ BadBuffer
+         THEN /\ led' = [led EXCEPT !["s"] = @ \cup {"qfd", "bfd", "qmap"}]   \* descriptors received, queue mapped
+              /\ Goto("s", "mapBuffer") /\ Consume("s")
+              /\ UNCHANGED <<cfg, zombie, res, open, ver, mem, wire>>
+       ELSE IF Front("s").t = "FDS"
          THEN /\ led' = [led EXCEPT !["s"] = @ \cup ByFdRes]
               /\ mem' = [mem EXCEPT !["s"] = "C"]
               /\ Goto("s", "sendAck") /\ Consume("s")
               /\ UNCHANGED <<cfg, zombie, res, open, ver, wire>>
          ELSE FailTaking("s", "err_proto")
 SSendAck == SendStep("s", "sendAck", Msg("ACK", ver["s"]), "ok")
+\* getGlobalBufferManager / getGlobalBufferManagerWithMemFd fails with the queue already mapped: the handler returns the
+\* error and newSession's cleanup has to reach the queue mapping through s.queueManager. With BufferFdLeaks (the tree as
+\* it is) the received buffer descriptor is closed by nobody on this path.
+SMapBufferFails ==
+    /\ pc["s"] = "mapBuffer" /\ Active("s")
+    /\ IF zombie["s"] THEN Fail("s", "err_map")
+       ELSE /\ res' = [res EXCEPT !["s"] = "err_map"]
+            /\ led' = [led EXCEPT !["s"] = IF BufferFdLeaks /\ "bfd" \in @ THEN {"bfd"} ELSE {}]
+            /\ mem' = [mem EXCEPT !["s"] = "none"]
+            /\ open' = [open EXCEPT !["s"] = FALSE]
+            /\ Goto("s", "end")
+            /\ UNCHANGED <<cfg, zombie, ver, io, chan, wire>>
 
-Server == SStart \/ SRecvFirst \/ SSendExch \/ SRecvSecond \/ SSendAckRdy \/ SRecvFds \/ SSendAck \/ Finish("s")
+Server == SStart \/ SRecvFirst \/ SSendExch \/ SRecvSecond \/ SSendAckRdy \/ SRecvFds \/ SSendAck \/ SMapBufferFails
+          \/ Finish("s")
 
 Next == Client \/ Server \/ (\E x \in Sides : RecvOther(x) \/ Timeout(x))
 Spec == Init /\ [][Next]_vars /\ WF_vars(Next)
@@ -301,6 +331,7 @@ TypeOK == /\ zombie \in [Sides -> BOOLEAN]
 KnownV2NoAck       == cfg.fside = "s" /\ ver["c"] = 2        \* protocol 2 has no acknowledgement at all
 KnownMemfdDowngrade == cfg.map = "memfd" /\ cfg.sgen = "v2exch" \* memfd names sent as file paths after downgrade
 KnownLateGoroutine == cfg.fkind = "late"                       \* the goroutine of a timed-out initProtocol goes on
+KnownBufferFdLeak == BufferFdLeaks /\ cfg.map = "memfd" /\ cfg.fkind = "badbuf"
 Exempt == ~Strict /\ (KnownV2NoAck \/ KnownMemfdDowngrade)
 
 \* without faults: both succeed with the lower version on the same memory, or both fail
@@ -318,7 +349,7 @@ NoOneSidedSuccess ==
 ServerSuccessMeansClientSentAll ==
     (NonFaulty("s") /\ res["s"] = "ok") => mem["s"] = "C" /\ mem["c"] = "C"
 \* an end that fails leaves nothing behind
-Cleanup == \A x \in Sides : (NonFaulty(x) /\ res[x] \in Errs /\ ~zombie[x] /\ ~(~Strict /\ KnownLateGoroutine))
+Cleanup == \A x \in Sides : (NonFaulty(x) /\ res[x] \in Errs /\ ~zombie[x] /\ ~(~Strict /\ (KnownLateGoroutine \/ KnownBufferFdLeak)))
                                => led[x] = {} /\ mem[x] = "none" /\ ~open[x]
 \* nobody waits forever: a state without successor has both ends resolved (the time-out arm is always there)
 Bounded == (~ENABLED Next) => Terminal
